@@ -25,6 +25,7 @@ def outer():
     def middle(y):
         # (iii) free-variable / nonlocal owner lookup stops at middle(), which has m only as an iteration variable
         [m for m in y]
+        print(m)            # CPython: outer()'s m
 
         def inner():
             nonlocal m
